@@ -7,7 +7,7 @@ W=/tmp/hw/$WS
 rsync -a --delete /verif/harness/src/ $W/src/
 rsync -a --delete /verif/regress/ $W/root/regress/
 cp /verif/known_findings.json $W/root/
-rm -rf $W/repo_mut.tmp; git -C /repo worktree prune; rsync -a --delete --exclude target --exclude .git /repo/ $W/repo_mut/
+rm -rf $W/repo_mut.tmp; git -C /repo worktree prune; rsync -a --delete --exclude target --exclude .git /tmp/repo_fixed/ $W/repo_mut/   # /tmp/repo_fixed has the same tree as /repo HEAD (checked with diff -r); /repo itself may have a seed applied by an official run
 (cd $W/repo_mut && git apply "$D/patch.diff") || { echo "patch does not apply"; exit 2; }
 $W/run.sh mut $ID $TIER; RC=$?
 echo "exit=$RC"
